@@ -859,3 +859,88 @@ def fabric_delivery(script="late-subscriber", kinds=("fifo",)):
     tid += 1
   sc.info = {"script": script, "steps": [list(x) for x in steps], "kinds": list(kinds), "events": [e.rid for e in events]}
   return sc
+
+
+# ---- an active object subscribes and publishes against the delivery threads and its own thread (C07, C09 under every interleaving) -----
+def ao_pubsub(kind="lifo", pending=1, subscribe_first=True):
+  """thread 0: the real ActiveObject.subscribe(signal, queue_type=kind) on a started object (run-time path), a fifo post of `pending` events
+  by the caller, then the real ActiveObject.publish(event); the delivery thread of `kind` runs the real thread_runner; the object's own
+  thread runs run_event.  The object's queue is a LockingDeque (token queue + deque with a ghost reference for the intended order)."""
+  import miros.activeobject as ao
+  sc = Scenario("ao_pubsub")
+  sig = signals_ns(sc)
+  EV = RecordClass("event", ["signal", "signal_name"])
+  FE = RecordClass("FabricEvent", ["event", "priority"])
+  sc.record_pyclass["event"] = ao.HsmEvent
+  NEWS = sc.strings.code("NEWS")
+  news = EV.new(signal=SK(11, 11), signal_name=SK(NEWS, "NEWS"))
+  sub_ev = EV.new(signal=SK(11, 11), signal_name=SK(NEWS, "NEWS"))
+  pend = [EV.new(signal=SK(12 + i, 12 + i), signal_name=SK(sc.strings.code("P%d" % i), "P%d" % i)) for i in range(pending)]
+  kinds = {news.rid: "in.kind.news"}
+  sc.ghost["in.kind.news"] = 1 if kind == "lifo" else 0
+  for e in pend:
+    kinds[e.rid] = "in.kind.p%d" % e.rid
+    sc.ghost["in.kind.p%d" % e.rid] = 0
+  for e in [news] + pend:
+    sc.ghost["disp.e%d" % e.rid] = 0
+  fe = FE.new(event=news, priority=SK(5, 5))
+  Q = sc.add(M.MQueue("Q", 4))
+  D = sc.add(RefDeque("D", 4, kinds))
+  sc.elem_typ["D"] = ("rec", EV)
+  task_event = sc.add(M.MEvent("task_event", 1))
+  fabric_event = sc.add(M.MEvent("fabric_event", 1))
+  thread = sc.add(M.MThread("ao.thread", prog=1, state=1))
+  pq = sc.add(M.MItemQueue("%s_queue" % kind, 3, {fe.rid: 5}))
+  other_pq = sc.add(M.MItemQueue("%s_queue" % ("fifo" if kind == "lifo" else "lifo"), 3, {fe.rid: 5}))
+  sc.elem_typ[pq.name] = sc.elem_typ[other_pq.name] = ("rec", FE)
+  lists = sc.add(M.MLists("registries", 2, 2))
+  sc.elem_typ["registries"] = "pyobj"
+  subs = sc.add(M.MDict("%s_subscriptions" % kind, 2))
+  other_subs = sc.add(M.MDict("%s_subscriptions" % ("fifo" if kind == "lifo" else "lifo"), 2))
+  for d in (subs, other_subs):
+    sc.elem_typ[d.name] = "str"
+    sc.value_typ[d.name] = ("listref", lists)
+  ld = PyObj(ao.LockingDeque, {"deque": D, "locking_queue": Q}, "locking_deque")
+  sc.pyobjs.append(ld)
+  fabric = PyObj(ao.ActiveFabricSource, {"fabric_task_event": fabric_event,
+                                        "fifo_fabric_queue": pq if kind == "fifo" else other_pq, "lifo_fabric_queue": pq if kind == "lifo" else other_pq,
+                                        "fifo_subscriptions": subs if kind == "fifo" else other_subs, "lifo_subscriptions": subs if kind == "lifo" else other_subs}, "fabric")
+  obj = PyObj(ao.ActiveObject, {"queue": ld, "locking_deque": ld, "instrumented": False, "live_spy": False, "live_trace": False,
+                                "activeobject_task_event": task_event, "fabric_task_event": fabric_event, "thread": thread, "fabric": fabric}, "active_object")
+  sc.class_intrinsics.append((ao.FabricEvent, lambda comp, a, k: FE.intern(event=a[0], priority=a[1])))
+  sc.class_intrinsics.append((ao.HsmEvent, lambda comp, a, k: EV.intern(signal=k["signal"], signal_name=SK(sc.strings.code("META"), "META"))))
+  # the not-yet-started path of subscribe/publish builds these; the object of this scenario is started, the path is translated but never taken
+  sc.class_intrinsics.append((ao.SubscribeEvent, lambda comp, a, k: SK(NONE, None)))
+  sc.class_intrinsics.append((ao.PublishEvent, lambda comp, a, k: SK(NONE, None)))
+  all_events = [news] + pend
+
+  def ghost_dispatch(comp, args, kwargs):
+    x = comp.intx(args[0])
+
+    def fn(B, st, tid, _x=x):
+      ev = ir.evint(_x, st, B)
+      return {"disp.e%d" % r.rid: B.ite(B.eq(ev, B.const(r.rid)), B.add(st["disp.e%d" % r.rid], B.const(1)), st["disp.e%d" % r.rid]) for r in all_events}
+    comp.ghost(fn, "dispatch", uses=[x])
+    return SK(NONE, None)
+  sc.method_intrinsics[("HsmWithQueues", "dispatch")] = lambda comp, self_val, args, kwargs: ghost_dispatch(comp, [kwargs.get("e", args[0] if args else None)], {})
+  body = "def caller(ao, sub_ev, news, %s):\n" % ", ".join("p%d" % i for i in range(pending)) if pending else "def caller(ao, sub_ev, news):\n"
+  if subscribe_first:
+    body += "  ao.subscribe(sub_ev, queue_type=%r)\n" % kind
+  for i in range(pending):
+    body += "  ao.post_fifo(p%d)\n" % i
+  if not subscribe_first:
+    body += "  ao.subscribe(sub_ev, queue_type=%r)\n" % kind
+  body += "  ao.publish(news, priority=5)\n"
+  c = Compiler(sc, 0, "caller")
+  c.call_function(SF(node=driver(body, "caller"), closure={}, qualname="scenario.caller", globs={}), [SP(obj), sub_ev, news] + pend, {})
+  sc.programs.append(c.finish())
+  c = Compiler(sc, 1, "object-thread")
+  c.call_function(SF(fn=ao.ActiveObject.run_event, self_val=SP(obj), defcls=ao.ActiveObject), [SO(task_event), SO(fabric_event), SP(ld)], {})
+  sc.programs.append(c.finish())
+  c = Compiler(sc, 2, "%s-delivery" % kind)
+  fn = ao.ActiveFabricSource.thread_runner_fifo if kind == "fifo" else ao.ActiveFabricSource.thread_runner_lifo
+  c.call_function(SF(fn=fn, self_val=SP(fabric), defcls=ao.ActiveFabricSource), [SO(fabric_event), SO(pq), SO(subs)], {})
+  sc.programs.append(c.finish())
+  sc.info = {"kind": kind, "pending": pending, "events": [e.rid for e in all_events], "news": news.rid, "posters": [0], "consumer": 1,
+             "subscribe_first": subscribe_first, "handler_post_event": None}
+  return sc
